@@ -52,6 +52,11 @@ Inductive expr :=
 | EFor (ts : list target) (it : expr) (b : expr)
 | EBreak (v : option expr) | EContinue
 | EFn (params : list (target * option expr)) (variadic : option id) (ret : option hint) (body : expr)
+| EGenFn (params : list (target * option expr)) (variadic : option id) (body : expr)
+        (* a function whose body contains `yield`: calling it makes a generator *)
+| EYield (e : expr)
+| ENext (e : expr)                                 (* e.next() *)
+| EToTuple (e : expr) | EToList (e : expr)         (* e.to_tuple() / e.to_list() *)
 | ECall (f : expr) (args : list expr)
 | EPipe (a : expr) (f : expr) (args : list expr)   (* a -> f args *)
 | EReturn (v : option expr)
